@@ -320,6 +320,7 @@ func (f *File) AddChild(child Box, boxStartPos uint64) {
 		} else {
 			currentFragment := f.LastSegment().LastFragment()
 			currentFragment.AddChild(box)
+			currentFragment.setDecodedLeadGap()
 		}
 	case *MfraBox:
 		f.Mfra = box
